@@ -21,18 +21,20 @@ def normalise(o):
                 o[k] = []
         e = o.get("echo") or {}
         o["opts"], o["rules"], o["wild"] = e.get("opts", {}), e.get("rules", []), bool(e.get("wild"))
+        o["ioerr"] = 1 if e.get("missing") else 0
+        o["missing"] = e.get("missing") or ""
         return o
     scn = o.get("scn") or {}
     e = scn.get("echo") or {}
     n = {"id": scn.get("id", -1), "family": scn.get("family", ""), "universe": scn.get("universe", []), "arr": scn.get("arr", ""), "form": scn.get("form", ""),
          "flags": scn.get("flags", []), "judge": scn.get("judge", []), "src": scn.get("src", []), "dst": scn.get("dst", []), "final": [], "extra": [],
          "result": "crashed" if o.get("crashed") else "hung", "result2": "", "final2": [], "changed2": False, "resent2": [],
-         "opts": e.get("opts", {}), "rules": e.get("rules", []), "wild": bool(e.get("wild")),
+         "opts": e.get("opts", {}), "rules": e.get("rules", []), "wild": bool(e.get("wild")), "ioerr": 1 if e.get("missing") else 0, "missing": e.get("missing") or "",
          "err": ("CRASHED: " if o.get("crashed") else "HUNG: " if o.get("hung") else "HARNESS: " + str(o.get("harness_error"))) + (o.get("stderr") or "")[-1500:]}
     return n
 
 
-KEEP = ("id", "universe", "judge", "src", "dst", "final", "extra", "result", "result2", "changed2", "resent2", "opts", "rules", "wild", "peers")
+KEEP = ("id", "universe", "judge", "src", "dst", "final", "extra", "result", "result2", "changed2", "resent2", "opts", "rules", "wild", "peers", "ioerr")
 
 
 def slim_nodes(nodes):
@@ -71,16 +73,16 @@ def run(w, lines, label, case_timeout=200):
     return obs, summ
 
 
-def mk_line(s, arr, judge, form="slash", rule_style="opt", repeat=False, extra_flags=(), wild=False):
+def mk_line(s, arr, judge, form="slash", rule_style="opt", repeat=False, extra_flags=(), wild=False, missing=""):
     """A sync scenario line from a RecvScen e2e scenario (TLC JSON)."""
     nodes = lambda ns: [n for n in ns if n["p"] != "."] if False else ns
     return {"family": s.get("family", ""), "universe": s["universe"], "src": [n for n in s["src"] if n["p"] != "."], "dst": [n for n in s["dst"] if n["p"] != "."],
             "flags": p_recv.flags_of(s["opts"], s.get("rules", []), rule_style) + list(extra_flags), "arr": arr, "form": form, "judge": list(judge), "repeat": repeat,
-            "echo": {"opts": s["opts"], "rules": s.get("rules", []), "wild": wild},
+            "echo": {"opts": s["opts"], "rules": s.get("rules", []), "wild": wild, "missing": missing}, "missing": missing,
             # library arrangements run over the instrumented transport: record the complete session
             # transcript, validated action by action against the composed specification (RsyncTrace.tla)
             # (daemon arrangements: through a tap proxy in front of the daemon's socket)
-            "full": arr in ("lib", "libpush", "pull", "push") and form == "slash" and not wild}
+            "full": arr in ("lib", "libpush", "pull", "push") and form == "slash" and not wild and not missing}
 
 
 def attach_peers(obs, lines):
